@@ -26,7 +26,14 @@ theorem attrNameFromString_some {n k : Bytes} (h : attrNameFromString n = some k
     · cases h; rfl
 
 theorem key_lower {op : AttrOp} {k : Bytes} (h : op.key = some k) : asciiLowerBytes k = k := by
-  cases op <;> simp only [AttrOp.key] at h <;> rw [attrNameFromString_some h, asciiLowerBytes_idem]
+  cases op with
+  | set n v => simp only [AttrOp.key] at h; rw [attrNameFromString_some h, asciiLowerBytes_idem]
+  | remove n =>
+    simp only [AttrOp.key, Option.some.injEq] at h
+    rw [← h, asciiLowerBytes_idem]
+
+/-- `remove_attribute` is about the lower-cased name, whatever it is (`lookup_name`). -/
+theorem remove_key (n : Bytes) : (AttrOp.remove n).key = some (asciiLowerBytes n) := rfl
 
 /-- One attribute operation on the list (`Err` of `set_attribute` leaves the list alone). -/
 def attrApply (items : List Attribute) : AttrOp → List Attribute
@@ -190,16 +197,13 @@ theorem attrApply_filter (items : List Attribute) (op : AttrOp) :
           rw [keyMatch, hkey, key_lower hkey]; simp
         simp [List.filter_cons, this]
   | remove n =>
-    simp only [attrApply, attrsRemoveAttribute]
-    cases hk : attrNameFromString (asciiLowerBytes n) with
-    | none => rfl
-    | some k =>
-      have hkey : (AttrOp.remove n).key = some k := hk
-      simp only [List.filter_filter]
-      congr 1
-      funext a
-      rw [keyMatch_of_key hkey]
-      cases eqCaseInsensitive a.name k <;> rfl
+    simp only [attrApply, attrsRemoveAttribute, attrLookupName]
+    have hkey := remove_key n
+    simp only [List.filter_filter]
+    congr 1
+    funext a
+    rw [keyMatch_of_key hkey]
+    cases eqCaseInsensitive a.name (asciiLowerBytes n) <;> rfl
 
 theorem attrApply_mem (items : List Attribute) (op : AttrOp) (a : Attribute)
     (ha : a ∈ attrApply items op) : a ∈ items ∨ (a.raw = none ∧ keyMatch op a = true) := by
@@ -224,10 +228,8 @@ theorem attrApply_mem (items : List Attribute) (op : AttrOp) (a : Attribute)
         · subst h
           exact Or.inr ⟨rfl, by rw [keyMatch, hkey, key_lower hkey]; simp⟩
   | remove n =>
-    simp only [attrApply, attrsRemoveAttribute] at ha
-    cases hk : attrNameFromString (asciiLowerBytes n) with
-    | none => simp [hk] at ha; exact Or.inl ha
-    | some k => simp only [hk, List.mem_filter] at ha; exact Or.inl ha.1
+    simp only [attrApply, attrsRemoveAttribute, List.mem_filter] at ha
+    exact Or.inl ha.1
 
 /-- The first attribute matching the key `k`. -/
 def lookup (k : Bytes) (items : List Attribute) : Option Attribute :=
@@ -250,8 +252,8 @@ theorem attrApply_set_lookup (items : List Attribute) (n v k : Bytes)
 theorem attrApply_remove_lookup (items : List Attribute) (n k : Bytes)
     (hk : (AttrOp.remove n).key = some k) :
     lookup k (attrApply items (.remove n)) = none := by
-  have hk' : attrNameFromString (asciiLowerBytes n) = some k := hk
-  simp only [attrApply, attrsRemoveAttribute, hk', lookup]
+  have hk' : asciiLowerBytes n = k := by simpa [AttrOp.key] using hk
+  simp only [attrApply, attrsRemoveAttribute, attrLookupName, hk', lookup]
   rw [List.find?_eq_none]
   intro a ha
   rw [List.mem_filter] at ha
@@ -289,18 +291,14 @@ theorem attrApply_other_lookup (items : List Attribute) (op : AttrOp) (k : Bytes
           simp only [eqCaseInsensitive, key_lower hkey]; simpa using hkk
         simp [List.find?_cons, this]
   | remove n =>
-    simp only [attrApply, attrsRemoveAttribute, lookup]
-    cases hk : attrNameFromString (asciiLowerBytes n) with
-    | none => rfl
-    | some k' =>
-      have hkey : (AttrOp.remove n).key = some k' := hk
-      have hkk : k' ≠ k := fun e => hne (by rw [hkey, e])
-      simp only
-      apply find?_filter_of_imp
-      intro a ha
-      simp only [eqCaseInsensitive, beq_iff_eq] at ha
-      simp only [eqCaseInsensitive, ha, Bool.not_eq_true', beq_eq_false_iff_ne, ne_eq]
-      exact fun e => hkk e.symm
+    simp only [attrApply, attrsRemoveAttribute, attrLookupName, lookup]
+    have hkey := remove_key n
+    have hkk : asciiLowerBytes n ≠ k := fun e => hne (by rw [hkey, e])
+    apply find?_filter_of_imp
+    intro a ha
+    simp only [eqCaseInsensitive, beq_iff_eq] at ha
+    simp only [eqCaseInsensitive, ha, Bool.not_eq_true', beq_eq_false_iff_ne, ne_eq]
+    exact fun e => hkk e.symm
 
 theorem attrsApplyOps_other_lookup (items : List Attribute) (ops : List AttrOp) (k : Bytes)
     (hne : ∀ op ∈ ops, op.key ≠ some k) : lookup k (attrsApplyOps items ops) = lookup k items := by
@@ -353,10 +351,8 @@ theorem startTag_attributes (t : StartTag) (ops : List StartTagOp) :
         simp only [Bool.false_eq_true, if_false]
         congr 1
         unfold attrsRemoveAttribute at hr ⊢
-        split at hr
-        · rfl
-        · simp only [bne_eq_false_iff_eq] at hr
-          simp only
-          exact (filter_eq_self_of_length _ _ hr.symm).symm
+        simp only [bne_eq_false_iff_eq] at hr
+        simp only
+        exact (filter_eq_self_of_length _ _ hr.symm).symm
 
 end LolHtml.Lemmas.EditAttrs
